@@ -61,6 +61,9 @@ const (
 	FieldWWWAuthenticate   = "WWW-Authenticate"   // (r:opt.:all)
 )
 
+// maxContentLength RTSP 消息体(SDP、参数等)允许的最大长度
+const maxContentLength = 1024 * 1024
+
 type badStringError struct {
 	what string
 	str  string
@@ -284,9 +287,10 @@ func readLine(r *bufio.Reader) (string, error) {
 		if !more {
 			break
 		}
-		// if len(line) >maxLineLenght {
-		// 	return string(line),errors.New("line over the maximum length")
-		// }
+		// 拒绝超长的行，避免恶意对端让服务器无限制地缓存数据
+		if len(line) > maxLineLenght {
+			return "", &badStringError{"line over the maximum length", string(line[:64])}
+		}
 	}
 	return string(line), nil
 }
